@@ -225,6 +225,11 @@ class Form(Node):
                 else:
                     H = M / (e - 1)
 
+            if abs(H) > 30:
+                # sinh/cosh overflow for |H| > 710 (NaN result): start from the asymptotic
+                # solution of e * sinh(H) = M instead
+                H = np.sign(M) * np.log(2 * abs(M) / e + 1.8)
+
             def next_H(H, e, M):
                 return H + (M - e * sinh(H) + H) / (e * cosh(H) - 1)
 
